@@ -66,6 +66,11 @@ def read_cmd_line_file(build_dir: str, options: SharedCMDOptions) -> None:
     # overrides values from the file.
     d: dict[OptionKey, str | None] = {OptionKey.from_string(k): v for k, v in config['options'].items()}
     d.update(options.cmd_line_options)
+    # As in parse_cmd_line_options(): buildtype goes first, so that recorded
+    # explicit values of debug and optimization still override what it expands to.
+    bt_key = OptionKey('buildtype')
+    if bt_key in d:
+        d = {bt_key: d.pop(bt_key), **d}
     options.cmd_line_options = d
     options.builtin_keys = set()
     options.d_keys = set(d)
